@@ -42,7 +42,7 @@ func printUnit(r *UnitResult, verbose bool) bool {
 	for _, o := range r.Obls {
 		good := o.Status == "proved"
 		if o.Expect == "refuted" {
-			good = o.Status == "refuted"
+			good = o.Status == "refuted" || o.Status == "refuted-weak"
 		}
 		mark := "ok  "
 		if !good {
